@@ -1,6 +1,8 @@
 """Decay-chain helpers: descriptor reader (bracket matching), canonical trees, chain generators."""
 from __future__ import annotations
 
+import json
+
 from collections import Counter
 
 from hypothesis import strategies as st
@@ -143,16 +145,38 @@ def chain_case(draw, max_decaying=6, max_daughters=4, max_mult=3, names=None, bf
         for d in ds:
             if d in decaying:
                 reach.add(d)
-    order = draw(st.permutations(list(range(n))))
-    return {"mother": decaying[0], "decays": [decays[i] for i in order]}
+    share = []
+    if n >= 2 and draw(st.sampled_from((False,) * 5 + (True,))):
+        # a twin: another particle with exactly the same decay (as D0 and a tagged D0 have), placed beside the original;
+        # half of the time both names are given one and the same DecayMode object
+        i = draw(st.integers(1, n - 1))
+        x, b, ds, md = decays[i]
+        y = x + "_tw"
+        if descriptor_safe(y) and y not in pool:
+            decays.append([y, b, list(ds), json.loads(json.dumps(md))])
+            parents = [q for q in range(i) if x in decays[q][2]]
+            decays[draw(st.sampled_from(parents))][2].append(y)
+            if draw(st.booleans()):
+                share.append([x, y])
+    order = draw(st.permutations(list(range(len(decays)))))
+    out = {"mother": decaying[0], "decays": [decays[i] for i in order]}
+    if share:
+        out["share"] = share
+    return out
 
 
 def build_chain(case):
     from decaylanguage import DecayChain, DecayMode
 
     decays = {}
+    same = {}
+    for x, y in case.get("share", ()):
+        same[x], same[y] = y, x
     for m, b, ds, md in case["decays"]:
-        decays[m] = DecayMode(b, list(ds), **md)
+        if same.get(m) in decays:
+            decays[m] = decays[same[m]]  # two particles given one and the same DecayMode object
+        else:
+            decays[m] = DecayMode(b, list(ds), **md)
     return DecayChain(case["mother"], decays)
 
 
